@@ -91,6 +91,7 @@ type ContractTable struct {
 	Ghosts   map[string]*GhostDecl
 	Specs    map[string]*SpecFunc
 	Impls    []ImplDecl
+	Guards   map[string]string // field key (pkg.Type.field) -> lock field name
 	PropFns  map[string][]string // property -> function keys (derived)
 	AllLines int
 }
@@ -101,6 +102,7 @@ func newContractTable() *ContractTable {
 		Loops:  map[string]*LoopContract{},
 		Ghosts: map[string]*GhostDecl{},
 		Specs:  map[string]*SpecFunc{},
+		Guards: map[string]string{},
 	}
 }
 
@@ -116,7 +118,7 @@ var (
 	reHeader = regexp.MustCompile(`^(\S.*?)(\(([A-Za-z0-9_, ]*)\))?\s*(\(([A-Za-z0-9_, ]*)\))?\s*(\[([A-Za-z0-9_, ]+)\])?$`)
 )
 
-var blockKeywords = map[string]bool{"func": true, "extern": true, "functype": true, "trusted": true, "loop": true, "ghost": true, "spec": true, "impl": true}
+var blockKeywords = map[string]bool{"func": true, "extern": true, "functype": true, "trusted": true, "loop": true, "ghost": true, "spec": true, "impl": true, "guarded": true}
 var clauseKeywords = map[string]bool{"requires": true, "ensures": true, "xensures": true, "defines": true, "panics": true, "modifies": true, "invariant": true, "decreases": true, "expect": true, "vars": true, "pure": true, "ghostset": true}
 
 func splitList(s string) []string {
@@ -324,6 +326,14 @@ func (ct *ContractTable) parseLines(lines []rawLine, pkg string) error {
 			}
 			sf.Body = e
 			ct.Specs[sf.Name] = sf
+			curC, curL = nil, nil
+		case "guarded":
+			// guarded Type.field by lockfield
+			f := strings.Fields(rest)
+			if len(f) != 3 || f[1] != "by" {
+				return errf("guarded Type.field by lockfield")
+			}
+			ct.Guards["F:"+qualifyTypeName(f[0][:strings.LastIndex(f[0], ".")], pkg)+f[0][strings.LastIndex(f[0], "."):]] = f[2]
 			curC, curL = nil, nil
 		case "impl":
 			parts := strings.SplitN(rest, ":", 2)
